@@ -233,13 +233,16 @@ def as_passed(params, ns, cont='tuple', num='py'):
     return tuple(params), tuple(ns)
 
 
-def evaluate(qname, func, params, ns, pts, tid, slot, timescale=None, first=False, fine=False, cont='tuple', num='py'):
-    """Run one model evaluation under the proxies.  Returns the list of events begin ... end."""
-    from dadi import Integration
+def evaluate(qname, func, params, ns, pts, tid, slot, timescale=None, first=False, fine=False, cont='tuple', num='py', via='direct'):
+    """Run one model evaluation under the proxies.  Returns the list of events begin ... end.
+    via: 'direct' = func(params, ns, pts); 'ex-list' / 'ex-scalar' / 'log-list' / 'log-scalar' = the model wrapped with
+    Numerics.make_extrap_func / make_extrap_log_func (how every dadi script calls a library model) and evaluated with the single
+    grid size given as the one-entry list [pts] / as the scalar pts (one grid size: nothing is extrapolated)."""
+    from dadi import Integration, Numerics
     rec = Recorder(tid)
     names = list(func.__param_names__)
     rec.add('begin', model=qname, names=names, params=[rat(float(p)) for p in params], nnames=len(names), ns=[int(n) for n in ns],
-            pts=int(pts), slot=slot, first=bool(first), fine=bool(fine), passed='%s/%s' % (cont, num), timescale=rat(timescale) if timescale else 'default')
+            pts=int(pts), slot=slot, first=bool(first), fine=bool(fine), passed='%s/%s' % (cont, num) + ('' if via == 'direct' else '/' + via), timescale=rat(timescale) if timescale else 'default')
     old_ts = Integration.timescale_factor
     if timescale:
         Integration.timescale_factor = timescale
@@ -248,7 +251,11 @@ def evaluate(qname, func, params, ns, pts, tid, slot, timescale=None, first=Fals
             try:
                 with np.errstate(all='ignore'):
                     pobj, nobj = as_passed(params, ns, cont, num)
-                    fs = func(pobj, nobj, pts)
+                    if via == 'direct':
+                        fs = func(pobj, nobj, pts)
+                    else:
+                        mk = Numerics.make_extrap_log_func if via.startswith('log') else Numerics.make_extrap_func
+                        fs = mk(func)(pobj, nobj, [int(pts)] if via.endswith('list') else int(pts))
                 out = enc_out(fs)
             except Exception as ex:
                 out = {'raised': type(ex).__name__, 'msg': str(ex)[:80]}
@@ -440,7 +447,7 @@ def realize(g, tid):
     elif kind == 'edge':
         f = ms[g['model']]
         for i, v in enumerate(g['evals']):
-            ev += evaluate(g['model'], f, v['params'], v.get('ns', g['ns']), v.get('pts', g['pts']), tid, v['slot'], first=(i == 0), fine=v.get('fine', False), cont=v['cont'], num=v['num'])
+            ev += evaluate(g['model'], f, v['params'], v.get('ns', g['ns']), v.get('pts', g['pts']), tid, v['slot'], first=(i == 0), fine=v.get('fine', False), cont=v['cont'], num=v['num'], via=v.get('via', 'direct'))
         for k, (a, b) in enumerate(g['alike']):
             ev.append({'id': '%s-alike%d' % (tid, k), 'tid': tid, 'op': 'relate', 'kind': 'alike', 'a': a, 'b': b})
     else:
@@ -451,6 +458,8 @@ def realize(g, tid):
 def site_of(g):
     site = g['model'] if g['kind'] in ('model', 'swap', 'edge') else '%s>%s' % (g['A'], g['B'])
     # the groups at tied parameter vectors are a failure class of their own (a generic vector never takes an 'equal values' path)
+    if g.get('wrap'):
+        return site + '@extrap'           # evaluated through make_extrap_func / make_extrap_log_func with one grid size
     return site + '@ties' if g.get('tie') else site
 
 
@@ -555,6 +564,36 @@ def gen_groups(ctx, rng):
     groups += edge_groups(ctx, rng)
     # (5) the non-generic points inside the bounds: exactly equal sizes / durations / rates, one rate exactly 0 (own generator)
     groups += tie_groups(ctx, random.Random(ctx.seed + 1500))
+    # (6) the way scripts call a library model: wrapped for extrapolation, here with ONE grid size (own generator)
+    groups += wrap_groups(ctx, random.Random(ctx.seed + 1600))
+    return groups
+
+
+WRAP_VIAS = ('ex-list', 'ex-scalar', 'log-list', 'log-scalar')
+
+
+def wrap_groups(ctx, rng):
+    """Well-formedness of a model evaluated through Numerics.make_extrap_func and make_extrap_log_func with a single grid size,
+    given as the one-entry list [pts] and as the scalar pts: the full clause set of an evaluation (finite, non-negative on the fine
+    grid, shape, tagged for extrapolation, unfolded) applies to what the wrapper returns.  A representative subset in quick (per
+    module and number of populations: three models with 1 or 2 populations, two with 3), every model in thorough; parameters in the
+    regime of the swap calibration (short epochs) so that the fine-grid evaluations are fast."""
+    ms = models()
+    groups, cnt = [], {}
+    for q, f in ms.items():
+        if is_mscore(f):
+            continue
+        P = ndim_of(q, f)
+        if P > 3:
+            continue
+        key = (q.split('.')[0], P)
+        cnt[key] = cnt.get(key, 0) + 1
+        if ctx.quick and cnt[key] > (3 if P <= 2 else 2):
+            continue
+        names = list(f.__param_names__)
+        p = draw_swap_params(rng, names)
+        evals = [{'slot': via, 'params': p, 'cont': 'tuple', 'num': 'py', 'via': via, 'fine': True, 'pts': PTS_FINE[P]} for via in WRAP_VIAS]
+        groups.append({'kind': 'edge', 'model': q, 'ns': rand_ns(rng, P, even='inbreeding' in q), 'pts': PTS_FINE[P], 'evals': evals, 'alike': [], 'wrap': True})
     return groups
 
 
@@ -971,7 +1010,7 @@ def describe(g):
     if g['kind'] == 'nest':
         return 'nesting %s at %s (params %s) vs %s (params %s), ns=%s pts=%d' % (g['A'], g.get('point'), g['pa'], g['B'], g['pb'], g['ns'], g['pts'])
     if g['kind'] == 'edge':
-        return 'boundary / argument-type records of %s ns=%s pts=%d: %s' % (g['model'], g['ns'], g['pts'], '; '.join('%s=%s as %s/%s' % (v['slot'], v['params'], v['cont'], v['num']) for v in g['evals']))
+        return 'boundary / argument-type records of %s ns=%s pts=%d: %s' % (g['model'], g['ns'], g['pts'], '; '.join('%s=%s as %s/%s%s' % (v['slot'], v['params'], v['cont'], v['num'], ('/' + v['via']) if v.get('via') else '') for v in g['evals']))
     return 'label swap of %s params=%s vs %s, axes %s, ns=%s' % (g['model'], g['params'], g['swapped'], g['perm'], g['ns'])
 
 
